@@ -91,6 +91,13 @@ def realnum(v):
     return Fraction(v)
 
 
+def unchanged(field): return True    # heap frame clauses are VC-only
+def has_dyn(obj, name): return hasattr(obj, name)
+def is_prefix(a, b): return list(b[:len(a)]) == list(a)
+def forall_str(f): return True     # quantifiers over all strings are VC-only (loop invariants, representation invariants)
+def forall_int(f): return True
+
+
 def enum_owned(e, v):
     return _enum_member(v) and v.enum is e
 
